@@ -2,7 +2,7 @@
 Exit 0: property held on everything explored (known findings are printed as KNOWN-FINDING lines).
 Exit 1: VIOLATION property=<id> replay=<path> for every violation not listed in known_findings.json.
 Exit 2: inconclusive (unmodelled construct, solver unknown, budget, build failure, counterexample that does not replay)."""
-import sys, os, json, time, importlib, traceback, hashlib, collections
+import sys, os, json, time, importlib, traceback, hashlib, collections, re
 
 VERIF = os.path.dirname(os.path.dirname(os.path.abspath(__file__)))
 sys.path.insert(0, VERIF)
@@ -68,7 +68,8 @@ class Ctx:
                 self.obligations += 1
                 m = e.model_of(p)
                 wit = {'panic': p.msg, 'where': p.where, 'inputs': self._model_inputs(m)}
-                self.violations.append({'clause': 'no-panic', 'key': 'panic:' + (p.where or '').split(' <- ')[0], 'scenario': name,
+                slug = re.sub(r'[^a-z]+', '-', (p.msg or '').lower().replace('assertion failed:', '').replace('attempt to compute', '').replace('which would overflow', 'overflow'))[:40].strip('-')
+                self.violations.append({'clause': 'no-panic', 'key': 'panic:' + (p.where or '').split(' <- ')[0] + ':' + slug, 'scenario': name,
                                         'witness': wit, 'replay': p.notes.get('replay')})
             elif p.kind == 'budget':
                 raise Inconclusive('scenario %s: %s @ %s' % (name, p.msg, p.where))
